@@ -45,6 +45,40 @@ func init() {
 		},
 		Oracles: func() []Oracle { return []Oracle{&AccountingOracle{}} },
 	}
+	Props["C03"] = PropDef{
+		Gen: func(t *rapid.T, thorough bool) *Script {
+			o := mixedOpts(thorough)
+			o.Faults, o.BindFailures, o.MIG = false, false, false
+			o.MaxPodsPerWL = 5
+			return GenScript(t, "C03", "gangs-faultfree", o)
+		},
+		Oracles: func() []Oracle { return []Oracle{GangOracle{}} },
+	}
+	Props["C06"] = PropDef{
+		Gen: func(t *rapid.T, thorough bool) *Script {
+			o := mixedOpts(thorough)
+			o.Faults, o.MIG, o.MinRuntime = false, false, true
+			return GenScript(t, "C06", "victims", o)
+		},
+		Oracles: func() []Oracle { return []Oracle{VictimOracle{}} },
+	}
+	Props["C08"] = PropDef{
+		Gen: func(t *rapid.T, thorough bool) *Script {
+			o := mixedOpts(thorough)
+			o.Faults, o.MIG = false, false
+			o.Hierarchy = 3
+			return GenScript(t, "C08", "queue-limits", o)
+		},
+		Oracles: func() []Oracle { return []Oracle{QueueLimitOracle{}} },
+	}
+	Props["C16"] = PropDef{
+		Gen: func(t *rapid.T, thorough bool) *Script {
+			o := mixedOpts(thorough)
+			o.Faults, o.BindFailures, o.MIG, o.Twins = false, false, false, true
+			return GenScript(t, "C16", "twins", o)
+		},
+		Oracles: func() []Oracle { return []Oracle{OrderOracle{}} },
+	}
 	Props["C02"] = PropDef{
 		Gen: func(t *rapid.T, thorough bool) *Script {
 			o := mixedOpts(thorough)
